@@ -250,7 +250,7 @@ impl Engine for C12 {
 
     fn info(&self) -> EngineInfo {
         EngineInfo {
-            rule: "one run = a generated program (optionally importing 1-2 generated inline modules) is evaluated from source in VM A, compiled to bytecode through serde_json over a FaultyWriter onto the simulated disk (short writes, EINTR, EIO at the k-th call, disk full at the k-th call), the file is optionally torn (truncated at a tape-chosen offset; thorough tier additionally sweeps 64 evenly spaced offsets) or one global reference in it is renamed to an undefined module, or one shared-node reference is made dangling, or one scalar gets the wrong JSON type, and it is loaded back through a FaultyReader (EINTR, 1-byte reads, EIO at the k-th call) with Precompiled::run_expr into the same VM, a fresh VM with the helper modules, or a fresh VM without them (restart: only the disk survives). Non-trivial = the bytecode was produced and at least one fault fired or the target was a fresh VM; distinct = distinct hash of (workload, decision tape).",
+            rule: "one run = a generated program (optionally importing 1-2 generated inline modules; in a fifth of the runs its result also carries boundary constants of every literal kind: signed zero, huge/small/whole floats, extreme ints, bytes, strings with escapes and multi-byte characters, char literals) is evaluated from source in VM A, compiled to bytecode through serde_json over a FaultyWriter onto the simulated disk (short writes, EINTR, EIO at the k-th call, disk full at the k-th call), the file is optionally torn (truncated at a tape-chosen offset; thorough tier additionally sweeps 64 evenly spaced offsets) or one global reference in it is renamed to an undefined module, or one shared-node reference is made dangling, or one scalar gets the wrong JSON type, and it is loaded back through a FaultyReader (EINTR, 1-byte reads, EIO at the k-th call) with Precompiled::run_expr into the same VM, a fresh VM with the helper modules, or a fresh VM without them (restart: only the disk survives). Non-trivial = the bytecode was produced and at least one fault fired or the target was a fresh VM; distinct = distinct hash of (workload, decision tape).",
             real: vec!["compile_to_bytecode / Precompiled::run_expr / load_bytecode, SeSeed/DeSeed, serde derives of CompiledModule, new_global_thunk, VM execution of the loaded module, serde_json"],
             stubbed: vec!["the disk (a Vec<u8>)", "io::Write / io::Read given to serde_json (fault injecting)", "process restart = a second VM in the same process"],
             not_exercised: vec!["bincode or other serde formats", "file system", "std.io"],
@@ -289,6 +289,17 @@ impl Engine for C12 {
             g.max_loop = 10;
             let b = g.expr(&ty, 5);
             (g.hoisted.concat(), b)
+        };
+        // in a fifth of the runs the result also carries boundary constants of every literal kind
+        // (signed zero, non-integral and huge floats, extreme ints, bytes, strings with escapes and
+        // multi-byte characters, char literals): the stored form must give back exactly these
+        let body = if rng.chance(1, 5) {
+            format!(
+                "{{ v = {}, k = {{ nz = -0.0, pinf = 1.0 #Float/ -0.0, big = 9007199254740993.0, small = 0.000001, whole = 100.0, mx = 9223372036854775807, neg = -42, by = 255b, st = \"q\\\"b\\\\s\\nn\\tt é λ\", ch = 'é', ar = [-0.0, 0.0, 2.5] }} }}",
+                body
+            )
+        } else {
+            body
         };
         let prog = format!("{}{}{}{}\n", gen::PREAMBLE, imports, hoisted, body);
         // 10/11: single-field corruptions of the stored form (dangling shared-node reference,
